@@ -509,7 +509,63 @@ func genAlias(stream string, seed uint64, n int) []GenCase {
 			}
 		}
 	}
-	_ = n
+	// sequences of mutations with aliases taken in between (two ++ on one cell with a copy between
+	// them, a copy handed to a function that mutates its parameter, loop counters copied per iteration)
+	emit := func(t string) {
+		role := "repeat"
+		if strings.Contains(t, "if (!") {
+			role = "" // state carried from run to run: the model decides what each run returns
+		}
+		c := Case{ID: fmt.Sprintf("%s-%d", stream, id), Script: t, Opt: id%2 == 0, Fns: []HostFn{recFn()}, Tags: []string{"alias-seq"}}
+		o := stdObject(r)
+		for k := 0; k < 3; k++ {
+			c.Runs = append(c.Runs, Run{Obj: o, Polls: defaultPolls})
+		}
+		id++
+		out = append(out, GenCase{Case: c, Stream: stream, NonTrivial: true, Role: role})
+	}
+	for _, l := range []string{"1", "65535", "70000", "1.5"} {
+		for _, t := range []string{
+			"x = L; x++; y = x; x++; return [x, y];",
+			"x = L; x++; y = x; y++; return [x, y];",
+			"x = L; x--; y = x; x--; x--; return [x, y];",
+			"i = L; last = 0; n = 0; while (n < 3) { last = i; i++; n++; } return [i, last];",
+			"function bump(p) { p++; return p; } x = L; x++; r = bump(x); return [x, r];",
+			"function bump(p) { p++; p++; return p; } x = L; x++; r = bump(x); s = bump(x); return [x, r, s];",
+			"x = L; x++; xs = [x, x]; x++; return [x, xs];",
+			"x = L; x++; h = {\"k\": x}; x++; return [x, h];",
+			"if (!seen) { seen = true; x = L; } y = x; x++; return [x, y];",
+			"x = L; x++; rec(x); y = x; x++; rec(y); rec(x); return y;",
+			"function id(p) { return p; } x = L; x++; y = id(x); x++; return [x, y];",
+			"x = L; y = L; x++; y++; z = x; x++; y++; return [x, y, z];",
+		} {
+			emit(strings.ReplaceAll(t, "L", l))
+		}
+	}
+	vars := []string{"a", "b", "c"}
+	for i := 0; i < n; i++ {
+		var sb strings.Builder
+		sb.WriteString("function bump(p) { p++; return p; } if (!init) { init = true; a = " + Pick(r, lits[:8]) + "; b = 1; c = 2.5; } ")
+		for k, m := 0, 4+r.Intn(8); k < m; k++ {
+			x, y := Pick(r, vars), Pick(r, vars)
+			switch r.Intn(9) {
+			case 0, 1, 2:
+				sb.WriteString(x + Pick(r, []string{"++", "--"}) + "; ")
+			case 3, 4:
+				sb.WriteString(x + " = " + y + "; ")
+			case 5:
+				sb.WriteString(x + Pick(r, []string{" += 1", " -= 1", " *= 2"}) + "; ")
+			case 6:
+				sb.WriteString("rec(bump(" + x + ")); ")
+			case 7:
+				sb.WriteString("xs = [" + x + ", " + y + "]; rec(xs); ")
+			case 8:
+				sb.WriteString("rec(" + x + "); ")
+			}
+		}
+		sb.WriteString("return [a, b, c];")
+		emit(sb.String())
+	}
 	return out
 }
 
@@ -573,10 +629,13 @@ func genApi(stream string, seed uint64, n int) []GenCase {
 	}
 	fns := []HostFn{{Name: "k0", Kind: "const", V: VInt(7)}, {Name: "k1", Kind: "const", V: VStr("s")}, {Name: "k2", Kind: "const", V: VBool(false)}, {Name: "k3", Kind: "const", V: VNull()},
 		{Name: "k4", Kind: "const", V: VArr(VInt(1))}, {Name: "first", Kind: "arg", I: 0}, {Name: "second", Kind: "arg", I: 1}, {Name: "third", Kind: "arg", I: 2}, {Name: "sum", Kind: "sum"},
-		{Name: "nothing", Kind: "void"}, {Name: "len", Kind: "const", V: VInt(-1)}, recFn()}
+		{Name: "nothing", Kind: "void"}, {Name: "len", Kind: "const", V: VInt(-1)}, {Name: "list", Kind: "list"}, recFn()}
 	for _, s := range []string{"return k0();", "return k1() + k1();", "return [k0(), k1(), k2(), k3(), k4()];", "return first(1, 2, 3);", "return second(1, 2, 3);", "return third(1, 2);", "return sum(1, 2, 3, \"x\", 4.5);",
 		"return sum();", "nothing(1, 2); return 3;", "x = nothing(); return x;", "return len(\"abc\");", "return first(first(first(9)));", "return sum(k0(), second(1, 2), len(1));",
-		"return first([1, 2], {\"a\": 1});", "rec(1); rec(2, 3); rec(); return 0;", "if (k2()) { return 1; } return 2;", "return !k2();", "return k3() == k3();", "foreach v in k4() { rec(v); } return 1;"} {
+		"return first([1, 2], {\"a\": 1});",
+		"a = list(1, 2); b = list(3, 4); return a;", "a = list(1, 2); b = list(3, 4); c = list(5); return [a, b, c];", "kept = list(\"x\", 1.5); rec(7, 8); first(9, 9); return kept;",
+		"if (!kept) { kept = list(1, 2, 3); } other = list(4, 5, 6); return [kept, other];", "function f(a, b) { return list(b, a); } x = f(1, 2); y = f(3, 4); return [x, y];",
+		"xs = []; foreach v in [1, 2, 3] { xs = list(v, xs); } return xs;", "rec(1); rec(2, 3); rec(); return 0;", "if (k2()) { return 1; } return 2;", "return !k2();", "return k3() == k3();", "foreach v in k4() { rec(v); } return 1;"} {
 		c := Case{ID: fmt.Sprintf("%s-%d", stream, id), Script: s, Opt: id%2 == 0, Show: []string{"runbool", "spec"}, Tags: []string{"api:function"}, Fns: fns,
 			Runs: []Run{{Obj: stdObject(r), Polls: defaultPolls}, {Obj: stdObject(r), Polls: defaultPolls}}}
 		id++
@@ -700,6 +759,13 @@ func genRefl(stream string, seed uint64, n int) []GenCase {
 			ents = append(ents, [2]HV{{Kind: "str", S: f.Name}, v})
 		}
 		objs = append(objs, HV{Kind: "map", ElemIface: true, KeyKind: "str", Entries: ents})
+		// the same pointer with its fields updated in place between runs (the harness reuses the pointer
+		// when two consecutive runs get a pointer to the same struct type)
+		st2 := HV{Kind: "struct"}
+		for _, f := range fields {
+			st2.Fields = append(st2.Fields, HField{f.Name, f.Exported, mutateHV(f.V)})
+		}
+		objs = append(objs, HV{Kind: "ptr", To: &st}, HV{Kind: "ptr", To: &st2}, HV{Kind: "ptr", To: &st})
 		ss := scripts(append(names, "Missing", "$F0"))
 		ss = append(ss, "F0 = \"shadow\"; return F0;", "return [F0, F1];")
 		for _, s := range ss {
@@ -741,4 +807,41 @@ func oddObjectN(k int) HV {
 		}
 	}
 	return HV{Kind: "nil"}
+}
+
+// mutateHV: a value of the same Go type with different content
+func mutateHV(v HV) HV {
+	w := v
+	switch v.Kind {
+	case "int", "time":
+		w.I = v.I/2 + 1
+	case "uint":
+		w.U = v.U + 1
+	case "f64", "f32":
+		w.F = v.F + 1
+	case "str":
+		w.S = v.S + "'"
+	case "bool":
+		w.B = !v.B
+	case "slice":
+		if len(v.Els) > 0 {
+			w.Els = append([]HV{mutateHV(v.Els[len(v.Els)-1])}, v.Els...)
+		}
+	case "ptr", "iface":
+		if v.To != nil {
+			t := mutateHV(*v.To)
+			w.To = &t
+		}
+	case "struct":
+		w.Fields = nil
+		for _, f := range v.Fields {
+			w.Fields = append(w.Fields, HField{f.Name, f.Exported, mutateHV(f.V)})
+		}
+	case "map":
+		w.Entries = nil
+		for _, e := range v.Entries {
+			w.Entries = append(w.Entries, [2]HV{e[0], mutateHV(e[1])})
+		}
+	}
+	return w
 }
